@@ -78,8 +78,9 @@ func Lemma_BytesLenPrefix(b []byte) {
 	ensures(specBytesLen(b) <= len(b))
 	ensures(specBytesLen(b[:specBytesLen(b)]) == specBytesLen(b))
 	ensures(specBytesLen(b[:specBytesLen(b):specBytesLen(b)]) == specBytesLen(b))
-	// it starts with a well-formed varint
+	// it starts with a well-formed varint, which is all the cut-off value keeps of the prefix
 	ensures(0 < specVarintLen(b) && specVarintLen(b) <= specBytesLen(b))
+	ensures(specVarintLen(b[:specBytesLen(b):specBytesLen(b)]) == specVarintLen(b))
 }
 
 // Lemma_BytesLenEncoded: a buffer that starts with the shortest varint of v and holds exactly v
